@@ -33,8 +33,12 @@ def natkey(text: str):
 
 
 def free_syms(m) -> set:
+    """Symbols in the scope of rename_symbols as documented: those of expression (= amplitude
+    definitions), parameter_defaults, components, kinematic_variables.  A symbol that occurs ONLY
+    inside the intensity / the amplitude keys (IndexedBase label, summation index) is private: a
+    homonymous symbol with other assumptions elsewhere does not drag it along."""
     out = set()
-    trees = [m.intensity, *m.amplitudes.values(), *m.parameter_defaults, *m.kinematic_variables,
+    trees = [m.expression, *m.amplitudes.values(), *m.parameter_defaults, *m.kinematic_variables,
              *m.kinematic_variables.values(), *m.components.values()]
     for t in trees:
         out |= {s for s in t.free_symbols if isinstance(s, sp.Symbol)}
